@@ -62,22 +62,23 @@ PROP = {'drive': ['Shape'],
                            'fresh lists; after repair #11 no two live slices share a backing array'],
  'assumptions': ['the model mirrors the code as repaired for DESIGN 9 #11 #12 #13 #14(a,b) #15 #33; '
                  'corpus/C07/defects.case keeps the inputs that failed before the repairs',
-                 'TIE OF THE HYPOTHESIS TO THE READER: readerShapedLL is now DISCHARGED, not assumed, for subtables that come '
-                 'out of the modelled readers: C07_reader_delivers_shape proves guarded and chain3Ok for the image of '
-                 'every value the C08 reader models return on ANY accepted byte string (readGsub1_1 1_2 2_1 3_1 4_1 8_1, '
-                 'readSeqContext1/2/3, readChainedSeqContext1/2/3, readGpos1_1 1_2 3_1 4_1 6_1), from the C08 '
-                 'post-conditions C08_reader_cov_in_range_* (Proofs/OtlCovRange: every coverage index below the length of '
-                 'the array it indexes) plus two lemmas proved here (read3/readC3 reject an empty input); '
-                 'C07_no_panic_reader composes it with C07_no_panic_history. Contexts 2 / chained 2 need nothing '
-                 '(rule sets are indexed by class under a guard), context 3 / chained 3 only the non-empty input. STILL '
-                 'ASSUMED: (i) GPOS 2.1 / 2.2 are not in FromReader (no coverage-indexed array in the engine model: the pair '
-                 'map / class rows are guarded; needed are non-nil *PairAdjust, which the Go readers allocate, and '
-                 'implemented value fields); (ii) value records use implemented fields only (vrImpl / valueOk, the '
-                 'exclusion in the property text); (iii) the C08 reader models are tied to the Go readers by C08 '
-                 'correspondence streams, and the translation C08 value -> engine Subtable (Proofs/ShapeReader.lean, '
-                 'field by field) is not itself cross-checked against the harness serialisation except through the '
-                 'direct stream shape.readsafe (bytes -> gtab.Read -> Apply twice, no panic), which stays as the check '
-                 'of the real reader incl. extension lookups and count-vs-coverage mismatches',
+                 'TIE OF THE HYPOTHESIS TO THE READER: readerShapedLL is DISCHARGED, not assumed, for subtables that come out '
+                 'of the modelled readers: C07_reader_delivers_shape proves guarded and chain3Ok for the image of every '
+                 'value the C08 reader models return on ANY accepted byte string, for EVERY subtable kind with an apply '
+                 'method (readGsub1_1 1_2 2_1 3_1 4_1 8_1, readSeqContext1/2/3, readChainedSeqContext1/2/3, readGpos1_1 '
+                 '1_2 2_1 2_2 3_1 4_1 6_1), from the C08 post-conditions C08_reader_cov_in_range_* (Proofs/OtlCovRange) '
+                 'plus lemmas proved here (read3/readC3 reject an empty input; the pair map of 2.1 and the class matrix '
+                 'of 2.2 consist of non-nil pair adjustments); C07_no_panic_reader composes it with '
+                 'C07_no_panic_history. The translation C08 value -> engine Subtable (Proofs/ShapeReader.lean) is '
+                 'cross-checked for GPOS 2.1 by kernel-evaluated examples in Props/C07: C08 reader on 24 bytes -> '
+                 'translation = what the driver parses from the harness serialisation of the Go reader result for the '
+                 'same bytes -> engine result (advance 500 -> 450). REMAINING: (i) GPOS 5.1 has a stub apply (returns -1) '
+                 'and is not modelled; (ii) value records are assumed to use implemented fields only (vrImpl, the '
+                 'exclusion in the property text: YAdvance and device offsets make Apply panic with "not implemented"); '
+                 '(iii) the C08 reader models are tied to the Go readers by C08 correspondence streams; the other '
+                 'translations (all but GPOS 2.1) are field-by-field re-packings without an end-to-end example; the '
+                 'direct stream shape.readsafe (bytes -> gtab.Read -> Apply twice, no panic) stays as the check of the '
+                 'real reader incl. extension lookups and count-vs-coverage mismatches',
                  'readerShapedLL (hypothesis of C07_no_panic): coverage indices inside the indexed arrays '
                  '(established by the reader through cov.Prune), context format 3 and chained context format 3 with '
                  'at least one input coverage (reader rejects 0), no nil *PairAdjust, no value record with an '
